@@ -272,7 +272,7 @@ def c20(pid, tier, seed, selftest=False):
             seen.add(k)
             progs.append(r["prog"])
     # programs with two handles dropped by two threads at once are executed many times (the interleaving is the machine's)
-    scen = [{"op": "erase", "id": "e%d" % i, "prog": p, "repeat": 300 if any(x["op"] == "drop2" for x in p) else 1}
+    scen = [{"op": "erase", "id": "e%d" % i, "prog": p, "repeat": (300 if thorough else 100) if any(x["op"] == "drop2" for x in p) else 1}
             for i, p in enumerate(progs)]
     rep.extra["programs_with_concurrent_drops"] = sum(1 for s_ in scen if s_["repeat"] > 1)
     for s in scen:
